@@ -5,7 +5,7 @@ writer; frames go through the real `structure_message` (as json.loads object_hoo
 pygls/io_.py does) and `handle_message`, inside the read loop's try/except so that calls of the
 error hook are counted.  Model side: Model/Outgoing.v + Spec/OutgoingSpec.v via bin/c05_driver.
 """
-import asyncio, itertools, json, logging, os, threading
+import asyncio, itertools, json, logging, os, queue, subprocess, threading, time
 import core
 import priv
 
@@ -28,7 +28,11 @@ PAYLOADS = [{"applied": True, "success": True, "title": "T"}, None, [{"uri": "fi
 SHAPED = [10, 11, 12]      # one key set, three member orders: a decoded object must match BY NAME
 MSGS = ["", "m", "Internal Error", "boom é\U0001F60B"]
 ABSENT = "__absent__"
-DATA = [ABSENT, {"k": [1, "x"]}, "d", 0, False, ""]
+DATA = [ABSENT, {"k": [1, "x"]}, "d", 0, False, "", None, 1, -1.5, True, "text", [], [1], {},
+        {"traceback": ["File x, line 1"]}, {"traceback": 5}, {"a": {"b": [1, {"c": None}], "traceback": None}}]
+# one representative per class of codes: each registered exact code, the server range, outside
+CODE_CLASSES = [-32603, -32602, -32600, -32601, -32700, -32800, -32000, -32050, -32099, 0, 1, -32100, -31999,
+                2 ** 31 - 1]
 CODES = [0, 1, -1, -32000, -32099, -32100, -31999, -32603, -32602, -32601, -32600, -32700, -32800,
          -32801, -32001, -32002, 2 ** 31, 2 ** 63, -2 ** 63 - 1, -32050, 2 ** 31 - 1, -2 ** 31, -2 ** 31 - 1]
 CODES_INT32 = [c for c in CODES if -2 ** 31 <= c < 2 ** 31]
@@ -651,6 +655,88 @@ async def _run_script(case, loop):
         ep.close()
 
 
+# ---------------------------------------------------------------- a real stdio server (subprocess)
+def _frame_reader(out, q):
+    try:
+        while True:
+            n = None
+            while True:
+                line = out.readline()
+                if not line:
+                    q.put(None); return
+                if line.strip() == b"":
+                    break
+                if line.lower().startswith(b"content-length:"):
+                    n = int(line.split(b":")[1])
+            q.put(json.loads(out.read(n)))
+    except Exception:
+        q.put(None)
+
+
+def run_stdio(case):
+    """k `@server.thread()` handlers of a REAL stdio server (harness/servers/c05_server.py) each send a
+    request to the peer and block on future.result(timeout); once all k are blocked the harness (the peer)
+    answers them in the order of the script; each handler reports what its future gave it."""
+    evs = case["evs"]
+    k = sum(1 for e in evs if e[0] == "send")
+    env = dict(os.environ, PYTHONPATH=core.REPO, PYTHONHASHSEED="0", C05_TIMEOUT="4")
+    script = os.path.join(core.ROOT, "harness", "servers", "c05_server.py")
+    p = subprocess.Popen([core.PY, script], stdin=subprocess.PIPE, stdout=subprocess.PIPE,
+                         stderr=subprocess.DEVNULL, env=env)
+    q = queue.Queue()
+    threading.Thread(target=_frame_reader, args=(p.stdout, q), daemon=True).start()
+
+    def put(obj):
+        p.stdin.write(frame_bytes(obj)); p.stdin.flush()
+    try:
+        for j in range(k):
+            put({"jsonrpc": "2.0", "id": 100 + j, "method": "t/ask", "params": {"q": j}})
+        asks, deadline = {}, time.time() + 8
+        while len(asks) < k:
+            try:
+                f = q.get(timeout=max(0.05, deadline - time.time()))
+            except queue.Empty:
+                return {"final": ["only %d of %d handlers got to send their request" % (len(asks), k)], "stdio": True}
+            if f is None:
+                return ["raise", "server-exited"]
+            if f.get("method") == "peer/ask":
+                asks[f["params"]["q"]] = f["id"]
+        for e in evs:
+            if e[0] in ("res", "err"):
+                rep = ["res", e[2]] if e[0] == "res" else ["err", e[2], e[3], e[4]]
+                put(reply_obj(asks[e[1][1]], rep))
+        got, deadline = {}, time.time() + 8
+        while len(got) < k:
+            try:
+                f = q.get(timeout=max(0.05, deadline - time.time()))
+            except queue.Empty:
+                break
+            if f is None:
+                return ["raise", "server-exited"]
+            if "id" in f and "method" not in f and isinstance(f["id"], int):
+                got[f["id"] - 100] = f.get("result", {"exc": "error-reply", "code": (f.get("error") or {}).get("code")})
+        final = []
+        for j in range(k):
+            r = got.get(j)
+            if r is None:
+                final.append([["no-answer"], 0])
+            elif r.get("exc") is None:
+                final.append([[1, canon_value(r["res"])], 0])
+            elif r["exc"] in ("TimeoutError", "CancelledError"):
+                final.append([[0] if r["exc"] == "TimeoutError" else [3], 0])
+            else:
+                final.append([[2, r["exc"], r.get("code"), r.get("message"), canon_data(r.get("data"))], 0])
+        return {"final": final, "stdio": True}
+    except Exception as ex:
+        return ["raise", type(ex).__name__]
+    finally:
+        try:
+            p.kill()
+        except Exception:
+            pass
+        p.wait()
+
+
 def run_case(case):
     loop = asyncio.new_event_loop()
     try:
@@ -765,6 +851,24 @@ class C05(core.Property):
                     ref = ["u", 0] if mid is None else mid
                     cases.append({"evs": [["send", n % len(METHODS), cb, mid, kind],
                                           ["err", ref, code, mi, di]]})
+        # (1a') the data member is a dimension of its own: every class of codes x every kind of data
+        n = 0
+        for code in CODE_CLASSES:
+            for di in range(len(DATA)):
+                n += 1
+                cases.append({"evs": [["send", n % len(METHODS), 1, None, "p"], ["err", ["u", 0], code, n % len(MSGS), di]]})
+        # (1a'') a REAL stdio server: k thread-pool handlers blocked on requests they sent, answered in
+        #        every order (k <= 3; k = 4: a sample in quick) after all k are blocked
+        for k in (1, 2, 3, 4):
+            orders = list(itertools.permutations(range(k)))
+            if k == 4 and chk.quick:
+                orders = [orders[0], orders[-1], orders[9], orders[14]]
+            for on, order in enumerate(orders):
+                evs = [["send", 6, 0, None, "t"] for _ in range(k)]
+                for j in order:
+                    evs.append(["res", ["u", j], SHAPED[(j + on) % 3]] if (j + on) % 2 == 0 else
+                               ["err", ["u", j], [0, -32603, -32001][j % 3], j % len(MSGS), (3 * j + on) % len(DATA)])
+                cases.append({"evs": evs, "stdio": True, "stream": None})
         # (1b) reactive transport: the reply is dispatched while send_request is still inside
         #      writer.write - in the same thread (w: in-process / loopback writer) or by the read
         #      loop on the main thread while the sending thread is blocked in write (l)
@@ -850,7 +954,7 @@ class C05(core.Property):
         # the transport: 3 histories in 10 arrive as Content-Length frames through the real
         # run_async over a StreamReader, 1 in 10 (when no coroutine is involved) through run
         for n, c in enumerate(cases):
-            if "stream" in c:
+            if "stream" in c or c.get("stdio"):
                 continue
             if n % 10 in (1, 4, 7):
                 c["stream"] = "a"
@@ -957,7 +1061,45 @@ class C05(core.Property):
 
     # ---------------- implementation ----------------
     def run_impl(self, chk, cases):
-        return [run_case(c) for c in cases]
+        # the subprocess family first, four servers at a time
+        stdio = {}
+        idx = [n for n, c in enumerate(cases) if c.get("stdio")]
+        if idx:
+            from concurrent.futures import ThreadPoolExecutor
+            with ThreadPoolExecutor(4) as ex:
+                for n, r in zip(idx, ex.map(run_stdio, [cases[n] for n in idx])):
+                    stdio[n] = r
+        return [stdio[n] if n in stdio else run_case(c) for n, c in enumerate(cases)]
+
+    def extra_checks(self, chk):
+        """from_error called directly: every class of codes x every kind of data gives an exception of
+        the class registered for the code carrying exactly (code, message, data)."""
+        from lsprotocol import types
+        from pygls.exceptions import JsonRpcException
+        exact = {-32603: 1, -32602: 2, -32600: 3, -32601: 4, -32700: 5, -32800: 6}
+        out, n = [], 0
+        for code in sorted(set(CODE_CLASSES + CODES_INT32)):
+            want_cls = CLASS_NAMES[exact.get(code, 7 if -32099 <= code <= -32000 else 0)]
+            for di in range(len(DATA)):
+                for msg in ("", "m"):
+                    n += 1
+                    data = None if DATA[di] == ABSENT else json.loads(json.dumps(DATA[di]))
+                    want = [want_cls, code, msg, canon_data(data)]
+                    try:
+                        exc = JsonRpcException.from_error(types.ResponseError(code=code, message=msg, data=data))
+                        got = [type(exc).__name__, exc.code, exc.message, canon_data(exc.data)]
+                    except Exception as ex:
+                        got = ["raise", type(ex).__name__]
+                    if got != want:
+                        out.append({"case": {"from_error": [code, msg, di]}, "impl": got, "S": want,
+                                    "verdict": "violation"})
+        self.extra_coverage = {"from_error_direct_calls": n}
+        return out[:3]
+
+    def same(self, c, impl, M):
+        if c.get("stdio"):
+            return isinstance(impl, dict) and impl["final"] == M["final"]
+        return impl == M
 
     # ---------------- model ----------------
     @staticmethod
@@ -1023,6 +1165,8 @@ class C05(core.Property):
             return False
         if impl["final"] != S["final"]:
             return False
+        if c.get("stdio"):
+            return True
         # the requester (coroutine / thread / caller) sees exactly the future's state
         if impl["seen"] != [f[0] for f in impl["final"]]:
             return False
@@ -1066,6 +1210,8 @@ class C05(core.Property):
 
     def shrink(self, c):
         evs = c["evs"]
+        if c.get("stdio"):
+            return
         if any((e[0] in ("res",) and e[2] in SHAPED) or e[0] == "note" for e in evs):
             return          # judged against module-level state of the process (class caches): a smaller
                             # candidate may fail only because of what earlier cases left behind
